@@ -1,6 +1,7 @@
 """C06 - folding: physical lines <= 75 octets, no split characters, exact unfolding.
 
-E-enum over a width alphabet W = {a(1 octet), e-acute(2), euro(3), emoji(4), SP, TAB, CR}:
+E-enum over a width alphabet W = {a(1 octet), e-acute(2), euro(3), emoji(4), SP, TAB, CR, combining acute U+0301 (2),
+combining dakuten U+3099 (3)}:
  (i)   every line  a^p . w . b^s   with p in [0,160], w in W^{<=j}, s in a menu of tail lengths: places every
        character width (and SP/TAB/CR) at every offset relative to the first three fold boundaries;
  (ii)  every periodic line  a^p . (w)^r  for w in W^{1..m}, p in [0,3], r so that the line has >= 165 octets: dense
@@ -16,7 +17,7 @@ from icalendar.parser import Contentline, Contentlines
 from icalendar.cal import Event, Calendar
 from icalendar.prop import vText
 
-W = ("a", "é", "€", "\U0001F600", " ", "\t", "\r")
+W = ("a", "é", "€", "\U0001F600", " ", "\t", "\r", "\u0301", "\u3099")
 LIMIT = 75
 
 
@@ -138,7 +139,7 @@ def run(ctx):
     j = 3 if ctx.quick else 4
     m = 5 if ctx.quick else 7
     jc = 2 if ctx.quick else 3
-    ctx.rule = ("E-enum over width alphabet W={a,e-acute(2 octets),euro(3),emoji(4),SP,TAB,CR}: (i) all lines a^p.w.b^s, "
+    ctx.rule = ("E-enum over width alphabet W={a,e-acute(2 octets),euro(3),emoji(4),SP,TAB,CR,U+0301,U+3099}: (i) all lines a^p.w.b^s, "
                 f"p in 0..160, w in W^<={j}, s in {TAILS_Q}; (ii) all periodic lines a^p.(w)^r, w in W^1..{m}, p in 0..3, "
                 f">=165 octets; (iii) a^p.w.b^s (w in W^<={jc}) as property value, parameter value and ALTREP+DESCRIPTION "
                 "of an event inside a calendar. non-trivial = the line was actually folded.")
